@@ -548,6 +548,71 @@ def c12_reader_shard(sh):
     return st
 
 
+COMMON_LEX = ['NP', 'S\\NP', 'S/NP', 'S\\S', 'S/S', '(S\\NP)/NP', 'NP/NP', 'NP\\NP']
+
+
+def common_trees():
+    """derivations over featureless categories that both grammars can read, licensed by either grammar (<= 3 words, no unary rules)"""
+    from depccg.grammar import en, ja
+    out, seen = [], set()
+    for lang, fn, hl in (('en', en.apply_binary_rules, True), ('ja', ja.apply_binary_rules, False)):
+        g = S.Grammar('common.' + lang, [K.P(c) for c in COMMON_LEX], [], lambda x, y, fn=fn: fn(x, y), lambda x: [], hl)
+        for k in (2, 3):
+            for d in T._all_spans(g, k, None, 10 ** 6):
+                if d.tree not in seen:
+                    seen.add(d.tree)
+                    out.append(d.tree)
+    return out
+
+
+def c12_history_run(seq):
+    """one history: read the common trees under (language, format) steps in ONE process; every step is judged against the active grammar"""
+    st = core.Stats()
+    scratch = f'/dev/shm/verif.c12h.{os.getpid()}'
+    os.makedirs(scratch, exist_ok=True)
+    try:
+        trees = common_trees()
+        for step, (lang, fmt) in enumerate(seq):
+            built = [make_tree(t, [f'w{i}' for i in range(T.n_leaves(t))], 'en') for t in trees]
+            try:
+                got = read_back(lang, fmt, built, scratch)
+            except Exception as e:
+                st.violation(f'reader/history/read_error/{fmt}', f'step {step} of {seq}: reader failed: {e!r}', engine='reader_history', history=[list(x) for x in seq])
+                continue
+            before = len(st.viol)
+            tmp = core.Stats()
+            for t, res in zip(trees, got):
+                st.count('reader_trees')
+                judge_read_labels(tmp, lang, fmt, t, res.tree)
+            st.c.update(tmp.c)
+            for k, v in tmp.viol.items():
+                for r in v[:1]:
+                    st.violation(f'reader/history/{k.split("/")[-1]}/{fmt}/after:{"+".join(l for l, _ in seq[:step]) or "-"}',
+                                 f'after reading under {[l for l, _ in seq[:step]]}, then {lang}: ' + r['what'], engine='reader_history', history=[list(x) for x in seq], step=step)
+            st.count('history_steps')
+        st.observe(seq, sorted(st.viol))
+    finally:
+        import shutil
+        shutil.rmtree(scratch, ignore_errors=True)
+    return st
+
+
+def c12_history_shard(seqs):
+    st = core.Stats()
+    for seq in seqs:
+        st.merge(core.in_fresh_process(c12_history_run, seq))
+        st.count('histories')
+    return st
+
+
+def c12_history_part(tier, seed):
+    steps = [(l, f) for l in ('en', 'ja') for f in (('auto', 'xml', 'ptb') if tier == 'thorough' else ('xml', 'ptb'))]
+    seqs = []
+    for k in (1, 2, 3):
+        seqs += list(itertools.product(steps, repeat=k))
+    return core.pmap(c12_history_shard, list(core.chunked(core.rotate(seqs, seed), max(1, len(seqs) // 32))))
+
+
 def c12_reader_part(tier, seed):
     shards = []
     for lang in ('en', 'ja'):
@@ -555,11 +620,18 @@ def c12_reader_part(tier, seed):
         for fmt in READ_FORMATS[lang]:
             step = max(60, len(lic) // 12)
             shards += [(lang, fmt, tier, lo, min(len(lic), lo + step)) for lo in range(0, len(lic), step)]
-    return core.pmap(c12_reader_shard, core.rotate(shards, seed))
+    st = core.pmap(c12_reader_shard, core.rotate(shards, seed))
+    st.merge(c12_history_part(tier, seed))
+    return st
 
 
 def replay(rec):
     import ast, shutil
+    if rec.get('engine') == 'reader_history':
+        st = core.in_fresh_process(c12_history_run, tuple(tuple(x) for x in rec['history']))
+        for k, v in st.viol.items():
+            print('REPRODUCED', k, v[0]['what'][:500])
+        return 1 if st.viol else 0
     st = core.Stats()
     t = ast.literal_eval(rec['tree'])
     scratch = f'/dev/shm/verif.c12.{os.getpid()}'
